@@ -463,3 +463,19 @@ M('seed3-C02-topic-rename-cascades', ['C02'], Z, """                    for topi
 
                     data.update(frames)
 """, ['C02.R4'])
+
+# ------------------------------------------------------------------------------------------------------ C13.R6 / R7 / R8
+M('write-double-terminator', ['C13'], RL, "size = len(data := data.encode() + b'\\n')", "size = len(data := data.encode() + b'\\n' + b'\\n')", ['C13.R6'])
+M('write-json-indented', ['C13'], RL, "json_dumps(data, allow_nan=False, separators=(',', ':')).encode() + b'\\n'", "json_dumps(data, allow_nan=False, indent=1).encode() + b'\\n'", ['C13.R6'])
+M('write-size-before-framing', ['C13'], RL, "                size = len(data := data + b'\\n')", "                size = len(data)\n                data = data + b'\\n'", ['C13.R6'])
+M('write-counts-twice', ['C13'], RL, "self.logfiles_size = logfiles_size = self.logfiles_size + size", "self.logfiles_size = logfiles_size = self.logfiles_size + size + size", ['C13.R6'])
+M('write-never-rolls', ['C13'], RL, "            if logfile_size >= self.file_size:\n                write_file.close()\n\n                self.write_file = None\n\n            elif", "            if False:\n                write_file.close()\n\n                self.write_file = None\n\n            elif", ['C13.R6'])
+M('write-lists-before-open', ['C13'], RL, "                try:\n                    write_file = self.write_file = open((logfile := self.new_logfile(timestamp)).path, 'wb')\n", "                self.logfiles.append(logfile := self.new_logfile(timestamp))\n                try:\n                    write_file = self.write_file = open(logfile.path, 'wb')\n", ['C13.R6'])
+M('read-index-off-by-one', ['C13'], RL, "            if (read_idx := self.read_idx) >= (nlogfiles := len(logfiles := self.logfiles)):\n                if not autorefresh:", "            if (read_idx := self.read_idx) > (nlogfiles := len(logfiles := self.logfiles)):\n                if not autorefresh:", ['C13.R7'])
+M('read-gives-up-closes', ['C13'], RL, "                        if (read_idx := self.read_idx + 1) >= (nlogfiles := len(logfiles := self.logfiles)):\n                            return None", "                        if (read_idx := self.read_idx + 1) >= (nlogfiles := len(logfiles := self.logfiles)):\n                            read_file.close()\n                            self.read_file = None\n                            return None", ['C13.R7'])
+M('read-line-strips-two', ['C13'], RL, "            data = data[:-1].decode()", "            data = data[:-2].decode()", ['C13.R7'])
+M('read-never-refreshes', ['C13'], RL, "                        autorefresh = False\n\n                        self.refresh_logfiles()\n\n                        if (read_idx := self.read_idx + 1)", "                        autorefresh = False\n\n                        if (read_idx := self.read_idx + 1)", ['C13.R7'])
+M('scan-pattern-three-digit-year', ['C13', 'C14'], RL, "r'(\\d+)_\\d{4}-\\d{2}-\\d{2}_", "r'(\\d+)_\\d{3}-\\d{2}-\\d{2}_", ['C13.R8', 'C14.R7'])
+M('scan-timestamp-milliseconds', ['C13', 'C14'], RL, "logfiles.append(RollLogFile(int(m.group(1)) / 1_000_000, path", "logfiles.append(RollLogFile(int(m.group(1)) / 1_000, path", ['C13.R8', 'C14.R7'])
+M('scan-not-sorted', ['C13'], RL, "        logfiles.sort()\n", "", ['C13.R8'])
+M('seek-vanished-file-stays', ['C14'], RL, "                    except FileNotFoundError:\n                        read_idx += 1\n\n                    else:", "                    except FileNotFoundError:\n                        pass\n\n                    else:", ['C14.R5'])
